@@ -37,12 +37,24 @@ def run(chk):
     chk.rule('C01-R7', 'index columns replaced: npstart <- new[:-1], npout <- diff(new); old (and _merge) columns removed', 2)
     chk.rule('C01-R8', 'N_subsamp = last offset of the last loaded sample; samples are loaded in the order A, B', 2)
     chk.rule('C01-R9', 'light cone: subsample columns added unmodified from the single file; index columns untouched', 1)
+    chk.rule('C01-R10', 'callee util.cumsum: out[0] is the carried offset, every element added once before its store, total returned (same obligations as C19-R2/R3)', 10)
     chk.assume('stored npstart/npout (and _merge) address this halo\'s records in its own superslab files (file contents)')
     chk.assume('astropy column objects alias the table storage (in-place masked store is seen by the later sum)')
     offsets(chk)
+    callee(chk)
     call_site(chk)
     zippers(chk)
     replacement(chk)
+
+
+def callee(chk):
+    """The offset carry of R1 relies on util.cumsum writing the carried offset as the first element (initial=True) and
+    returning the total: the accumulator discipline and the exact tiling of the stores decide that from the callee's body."""
+    from . import c19
+    fn = chk.src.func(c19.UTIL, 'cumsum')
+    k = c19.analyse_rec(chk.src)
+    c19.coverage(chk, k, rule='C01-R10')
+    c19.accumulator(chk, fn, rule='C01-R10')
 
 
 # --------------------------------------------------------------------------- R1, R2
